@@ -408,6 +408,10 @@ func init() {
 	addPlan("C12", planEntry{Engine: "A", Scenario: "install-then-own-snapshot", Params: "seg=1024", Quick: 6, Thorough: 60})
 	addPlan("C17", planEntry{Engine: "A", Scenario: "transfer-target-campaigns-later", Quick: 6, Thorough: 60})
 	addPlan("C16", planEntry{Engine: "A", Scenario: "transfer-target-campaigns-later", Quick: 4, Thorough: 40})
+	addPlan("C09", planEntry{Engine: "A", Scenario: "snapshot-vs-install", Params: "seg=1024,retain=1", Quick: 8, Thorough: 60})
+	addPlan("C03", planEntry{Engine: "A", Scenario: "restart-after-install", Params: "seg=1024", Quick: 6, Thorough: 60})
+	addPlan("C02", planEntry{Engine: "A", Scenario: "restart-after-install", Params: "seg=1024", Quick: 4, Thorough: 40})
+	addPlan("C10", planEntry{Engine: "A", Scenario: "restart-after-install", Params: "seg=1024", Quick: 4, Thorough: 40})
 	addPlan("C02", planEntry{Engine: "A", Scenario: "grown-cluster", Quick: 6, Thorough: 60})
 	addPlan("C06", planEntry{Engine: "A", Scenario: "grown-cluster", Quick: 4, Thorough: 40})
 	addPlan("C08", planEntry{Engine: "A", Scenario: "grown-cluster", Quick: 4, Thorough: 40})
